@@ -74,6 +74,11 @@ pub struct RlCase {
     /// that fall due in between are seen late, arrivals inside the stall happen at its end
     #[serde(default)]
     pub stall: Option<(Rel, Rel)>,
+    /// the wrapped service reports itself not ready from `start` for `len` (relative to the
+    /// period); callers arriving in that interval make their call at its end (they wait for
+    /// readiness first, as the Service contract asks). Ignored when the case has a stall.
+    #[serde(default)]
+    pub busy: Option<(Rel, Rel)>,
 }
 
 /// Periods P (ms) for which the f64 quotient (2P)/P evaluates below 2.0 (sliding-counter bucket
@@ -140,10 +145,11 @@ fn case_strategy(tier: Tier) -> BoxedStrategy<RlCase> {
             prop::bool::weighted(0.08),
             0u8..8,
             prop_oneof![4 => Just(0u32), 1 => prop_oneof![Just(1u32), Just(300u32), Just(999u32), 1u32..=999]],
+            prop_oneof![4 => Just(None), 1 => (rel(8), rel(3)).prop_map(Some)],
         ),
     )
         .prop_map(
-            |(window, limit, period, timeout, clones, callers, order, stall, (timeout_forever, setter_order, build_offset_us))| RlCase {
+            |(window, limit, period, timeout, clones, callers, order, stall, (timeout_forever, setter_order, build_offset_us, busy))| RlCase {
                 window,
                 limit,
                 period,
@@ -154,6 +160,7 @@ fn case_strategy(tier: Tier) -> BoxedStrategy<RlCase> {
                 clones,
                 callers,
                 order,
+                busy: if stall.is_some() { None } else { busy },
                 stall,
             },
         )
@@ -254,6 +261,15 @@ async fn interp(case: &RlCase) -> Verdict {
     let inner = Scripted::new(log.clone(), 1, move |req, _, _| {
         Step::ok(lats.get(req.id as usize).copied().unwrap_or(0))
     });
+    // busy interval [b0, b1) of the wrapped service
+    let busy: Option<(u64, u64)> = match (case.stall, case.busy) {
+        (None, Some((a, l))) => {
+            let b0 = a.ms(p).max(1);
+            Some((b0, b0 + l.ms(p).max(1)))
+        }
+        _ => None,
+    };
+    let inner = crate::svc::BusyAt::new(inner, busy.into_iter().collect());
     let wt = match case.window {
         0 => WindowType::Fixed,
         1 => WindowType::SlidingLog,
@@ -313,10 +329,18 @@ async fn interp(case: &RlCase) -> Verdict {
             }
         }
     }
+    if let Some((b0, b1)) = busy {
+        for i in 0..n {
+            if created[i] >= b0 && created[i] < b1 {
+                created[i] = b1;
+                at[i] = at[i].max(b1);
+            }
+        }
+    }
     let mut held: Vec<Option<futures::future::BoxFuture<'static, Result<crate::svc::Resp, RateLimiterServiceError<crate::svc::SErr>>>>> =
         (0..n).map(|_| None).collect();
     let overlaps_stall = |from: u64, to: u64| stall.map_or(false, |(s0, s1)| from < s1 && to >= s0);
-    let horizon = at.iter().copied().max().unwrap_or(0).max(stall.map_or(0, |s| s.1))
+    let horizon = at.iter().copied().max().unwrap_or(0).max(stall.map_or(0, |s| s.1)).max(busy.map_or(0, |b| b.1))
         + if forever {
             // long enough for a queue of callers to drain window by window (bounded for cost)
             ((case.callers.len() as u64 + 3) * 2 * p).min(4_000)
@@ -645,6 +669,9 @@ async fn interp(case: &RlCase) -> Verdict {
     }
     if cancelled_waiting.iter().any(|&c| c) {
         v.classes.push("cancel_while_waiting");
+    }
+    if busy.is_some() {
+        v.classes.push("inner_service_busy_for_a_while");
     }
     if stall.is_some() {
         v.classes.push("executor_stall");
